@@ -28,7 +28,10 @@ RULE = ('histories: action kind (snapshot / log / metric / span and combinations
         'each with its own condition function, limits and action kind, judged per tracepoint; conc: two threads at one '
         'log (or snapshot+log) tracepoint, each in its own frame (own locals, own module globals), each parked inside a '
         '`pause()` field of the message, all 6 interleavings forced — every field must be evaluated in the frame of its '
-        'own hit. Non-trivial: a '
+        'own hit; conc-inner: the same with the thread parked PART-WAY through ONE expression (`pause() and <names>`, '
+        '`(pause(), <names>)[1]`) — a field / LOG watch or the CONDITION of the tracepoint (true in one thread\'s frame, '
+        'false or failing in the other\'s): the names read after the pause must still be those of the own frame, a hit '
+        'whose condition is false in its own frame produces nothing. Non-trivial: a '
         'history with at least one condition-rejected hit followed by a collection, or a scope case with at least one '
         'failing and one succeeding expression. Distinct = distinct canonical JSON of the case.')
 TRUSTED = ['Python eval / str on live values is the eval oracle (reference evaluation in a copy of the environment)',
@@ -245,13 +248,36 @@ CONC_FIELDS = ['a', 's', 'GSTR', 'GNUM + a', 'lst[0]', 'd["k"]', 'o.name', 'twic
                'GOBJ.name', 'who']
 
 
+# expressions that park the thread PART-WAY through their own evaluation: `pause()` runs first, the names after it are
+# looked up when the thread is released again (by then the other thread has evaluated expressions of its own frame)
+CONC_INNER = ['(pause(), a)[1]', 'pause() and s', '[pause(), GSTR][1]', 'pause() and who', '(pause(), GNUM + a)[1]',
+              'pause() and o.name', '(pause(), len(s), who)[2]', 'pause() and twice(a)', 'pause() and nope',
+              '(pause(), GOBJ.name)[1]']
+# conditions of the same kind: boolean in each frame, true in one thread's frame and false in the other's (or the same in
+# both), or failing
+CONC_CONDS = ['pause() and a < 10', 'pause() and a > 10', "pause() and who == 'T0'", "pause() and who == 'T1'",
+              'pause() and GNUM == 42', 'pause() and GNUM != 42', "(pause(), s == 'text1')[1]", 'pause() and a / 0 > 1',
+              'pause() and a > 0', 'pause() and nope', "pause() and GSTR.endswith('0')"]
+
+
 def gen_conc(rng, k):
     """two threads at one log tracepoint, each in its own frame (own locals, own module globals); each is parked
-    inside a `pause()` field of the message while the other runs"""
+    inside a `pause()` field of the message while the other runs — or (stream `inner`) in the middle of the evaluation
+    of ONE expression: a field / LOG watch, or the tracepoint's condition"""
     fields = [rng.choice(CONC_FIELDS) for _ in range(rng.randint(1, 4))]
-    fields.insert(rng.randint(0, len(fields) - 1), 'pause()')
-    return {'kind': 'conc', 'mode': rng.choice(['log', 'snap']), 'fields': fields,
+    case = {'kind': 'conc', 'mode': rng.choice(['log', 'snap']), 'fields': fields,
             'sched': list(SCHEDULES[k % len(SCHEDULES)])}
+    if (k // 6) % 2 == 0:
+        fields.insert(rng.randint(0, len(fields) - 1), 'pause()')
+        return case
+    case['stream'] = 'inner'
+    r = rng.random()
+    if r < 0.6:
+        case['condition'] = rng.choice(CONC_CONDS)
+    if r > 0.4:
+        for _ in range(rng.randint(1, 2)):
+            fields.insert(rng.randint(0, len(fields)), rng.choice(CONC_INNER))
+    return case
 
 
 def gen(rng, tier):
@@ -306,6 +332,12 @@ def corpus():
         # two threads expanding a log message at once: every field is evaluated in the frame of its own hit
         {'kind': 'conc', 'mode': 'log', 'fields': ['pause()', 'a', 'GSTR', 'who'], 'sched': [0, 1, 1, 0]},
         {'kind': 'conc', 'mode': 'snap', 'fields': ['who', 'pause()', 's', 'GNUM + a'], 'sched': [0, 1, 0, 1]},
+        # parked in the MIDDLE of one expression (condition / field) while the other thread's hit is processed
+        {'kind': 'conc', 'stream': 'inner', 'mode': 'snap', 'fields': ['who'], 'condition': 'pause() and a > 10',
+         'sched': [0, 1, 1, 0]},
+        {'kind': 'conc', 'stream': 'inner', 'mode': 'log', 'fields': ['(pause(), a)[1]', 'who'], 'sched': [0, 1, 1, 0]},
+        {'kind': 'conc', 'stream': 'inner', 'mode': 'snap', 'fields': ['s', 'pause() and who'],
+         'condition': "pause() and who == 'T0'", 'sched': [1, 0, 0, 1]},
         # two tracepoints on one line with different conditions: each is judged on its own condition
         {'kind': 'multi', 'install': 'merged',
          'tps': [{'action': 'snapshot', 'cfg': {'fire_count': '-1', 'fire_period': '0'}, 'condition': 'c0()'},
@@ -538,6 +570,8 @@ def run_conc(case):
     rig = Rig(logger=False, plugins=[logger])
     try:
         args = {'log_msg': log_template(case['fields']), 'fire_count': '-1', 'fire_period': '0'}
+        if case.get('condition') is not None:
+            args['condition'] = case['condition']
         if case['mode'] == 'log':
             args['snapshot'] = 'no_collect'
         else:
@@ -725,6 +759,15 @@ def oracle(case, obs):
             g, loc = conc_reference(case, i)
             outs = [X.outcome(f, g, loc) for f in case['fields']]
             exp = '[deep] ' + ' | '.join('%d=%s' % (j, o['text']) for j, o in enumerate(outs))
+            if case.get('condition') is not None:
+                cv, cfailed = X.at_line(case['condition'], g, loc)
+                if cfailed or cv is not True:
+                    # the condition is false (or fails) in the frame of THIS hit: nothing may be produced for it
+                    if t['messages'] or t['snapshots']:
+                        v.append(f'thread {i}: condition {case["condition"]!r} is '
+                                 f'{"failing" if cfailed else "false"} in the frame of its own hit, but the hit produced '
+                                 f'{t["messages"]!r} and {t["snapshots"]} snapshot(s)')
+                    continue
             if t['messages'] != [exp]:
                 v.append(f'thread {i}: message {t["messages"]!r}; its fields evaluated in the frame of its own hit give '
                          f'{exp!r}')
@@ -924,9 +967,10 @@ def model_request(case, obs):
         reqs = []
         for i in range(2):
             g, loc = conc_reference(case, i)
-            reqs.append({'exprs': case['fields'], 'source': 'LOG',
-                         'oracle': [{'e': f, 'o': X.eval_outcome(f, g, loc)} for f in set(case['fields'])]})
-        return {'op': 'evalallN', 'threads': reqs}
+            exprs = set(case['fields']) | ({case['condition']} if case.get('condition') is not None else set())
+            reqs.append({'exprs': case['fields'], 'source': 'LOG', 'condition': case.get('condition'),
+                         'oracle': [{'e': f, 'o': X.eval_outcome(f, g, loc)} for f in sorted(exprs)]})
+        return {'op': 'concN', 'threads': reqs}
     if case['kind'] == 'multi':
         return {'op': 'runN', 'runs': [model_request(hc, obs)['runs'][0] for hc in multi_as_histories(case)]}
     if case['kind'] == 'history':
@@ -964,10 +1008,12 @@ def compare(case, obs, resp):
     if case['kind'] == 'conc':
         # in the model every hit evaluates its expressions with its own oracle: no state is shared between hits
         d = []
-        for i, (t, rs) in enumerate(zip(obs['threads'], resp['threads'])):
-            exp = '[deep] ' + ' | '.join('%d=%s' % (j, r['value']) for j, r in enumerate(rs))
-            if t['messages'] != [exp]:
+        for i, (t, r) in enumerate(zip(obs['threads'], resp['threads'])):
+            exp = ['[deep] ' + ' | '.join('%d=%s' % (j, x['value']) for j, x in enumerate(r['fields']))] if r['fired'] else []
+            if t['messages'] != exp:
                 d.append(f'thread {i}: model {exp!r} vs implementation {t["messages"]!r}')
+            if case['mode'] == 'snap' and t['snapshots'] != (1 if r['fired'] else 0):
+                d.append(f'thread {i}: model fired={r["fired"]} vs implementation {t["snapshots"]} snapshot(s)')
         return d
     if case['kind'] == 'multi':
         d = []
@@ -1005,7 +1051,8 @@ def compare(case, obs, resp):
 
 def label(case, obs):
     if case['kind'] == 'conc':
-        return 'conc/%s/%s' % (case['mode'], ''.join(map(str, case['sched'])))
+        return 'conc%s/%s/%s' % ('-inner' if case.get('stream') == 'inner' else '', case['mode'],
+                                 ''.join(map(str, case['sched'])))
     if case['kind'] == 'multi':
         return f"multi/{case['install']}/{len(case['tps'])}"
     if case['kind'] == 'history':
@@ -1020,7 +1067,8 @@ def label(case, obs):
 
 def nontrivial(case, obs):
     if case['kind'] == 'conc':
-        return case['sched'] not in ([0, 0, 1, 1], [1, 1, 0, 0]) and len(case['fields']) > 1
+        return case['sched'] not in ([0, 0, 1, 1], [1, 1, 0, 0]) and \
+            (len(case['fields']) > 1 or case.get('condition') is not None)
     if case['kind'] == 'multi':
         # some hit at which two tracepoints with conditions disagree
         return any(len({c['k'] == 'true' for c, tp in zip(h['conds'], case['tps']) if not blank(tp['condition'])}) > 1
@@ -1044,10 +1092,15 @@ def nontrivial(case, obs):
 def shrink(case):
     if case['kind'] == 'conc':
         for i, f in enumerate(case['fields']):
-            if f != 'pause()':
+            if f != 'pause()' and len(case['fields']) > 1:
                 c = dict(case)
                 c['fields'] = case['fields'][:i] + case['fields'][i + 1:]
-                yield c
+                if any('pause()' in x for x in c['fields']) or 'pause()' in (c.get('condition') or ''):
+                    yield c
+        if case.get('condition') is not None and any('pause()' in x for x in case['fields']):
+            c = dict(case)
+            del c['condition']
+            yield c
         return
     if case['kind'] == 'multi':
         for i in range(len(case['hits'])):
